@@ -169,6 +169,8 @@ def c18_3(ctx):
         if not pre or key_type not in name_expr:
             raise Undecided("hparse: prefix attribute / deserializer name are not both derived from key_type in a recognisable way")
         attr_expr = pre[0][len("truthy(%s.startswith(getattr(%s, " % (D, api)):]
+        if not (name_expr in ("'%%s_deserialize' %% %s" % key_type, "%s + '_deserialize'" % key_type)) and ("(" in name_expr or "[" in name_expr):
+            raise Undecided("hparse takes the deserializer name from `%s` (a table or a helper); this rule reads names formatted from key_type only" % name_expr[:60])
         ctx.check(sym.entails(e.reach, ("op", pre[0])) and key_type in attr_expr and pub_prv in attr_expr and name_expr in ("'%%s_deserialize' %% %s" % key_type, "%s + '_deserialize'" % key_type),
                   "extended-key-prefix", ctx.where(h, e.node), "hparse does not select the prefix attribute (`%s`) and the deserializer (`%s`) of the same key type" % (attr_expr[:50], name_expr[:50]))
     # a length test on the TEXT must let every text form of an extended key through: 82 bytes (78 + checksum) are 111 base58
@@ -284,8 +286,11 @@ def c18_6(ctx):
             ctx.check(t.startswith("'E:' + ") or t.startswith('"E:" + '), "electrum-text-form", ctx.where(f, e.node), "ElectrumWallet.as_text returns `%s`; the electrum parsers read `E:<hex>`" % t[:80], sample={"returns": t[:80]})
         blob = ctx.func(PARSE, "ParseAPI._electrum_to_blob")
         wb = sym.walk(ctx, blob)
-        ctx.check(any("'E'" in str(o) or "'E:'" in str(o) for e in wb.exits for o in (gi.f_opaques(e.cond) if e.cond not in (True, False) else [])), "electrum-prefix-read", ctx.where(blob),
-                  "ParseAPI._electrum_to_blob no longer tests for the E: prefix the wallet writes")
+        reads_e = any("'E'" in str(o) or "'E:'" in str(o) for e in wb.exits for o in (gi.f_opaques(e.cond) if e.cond not in (True, False) else []))
+        if not reads_e and any("'E'" in norm(n) or "'E:'" in norm(n) for g_ in ctx.p.functions.values() if g_.module is blob.module for n in ast.walk(g_.node) if isinstance(n, ast.Compare)):
+            ctx.undecided("electrum-prefix-read", ctx.where(blob), "ParseAPI._electrum_to_blob does not test for the E: prefix itself; another function of the module does (the test moved): not read here")
+        else:
+            ctx.check(reads_e, "electrum-prefix-read", ctx.where(blob), "ParseAPI._electrum_to_blob no longer tests for the E: prefix the wallet writes")
     # hierarchical keys: the text form of a node that holds a secret has to carry it, or it parses back to another object
     for rel, cname in (("pycoin/key/BIP32Node.py", "BIP32Node"), ("pycoin/key/BIP49Node.py", "BIP49Node"), ("pycoin/key/BIP84Node.py", "BIP84Node")):
         c = ctx.p.cls(rel, cname)
